@@ -106,3 +106,11 @@ func (s *CDCStreamer) CommitHook() bool {
 func (s *CDCStreamer) Len() int {
 	return len(s.pending.Events)
 }
+
+// RollbackHook is called when a transaction is rolled back, including the
+// implicit transaction of a statement which fails in autocommit mode. The
+// changes collected since the last commit have been undone by SQLite, so
+// they must not be sent with the next commit.
+func (s *CDCStreamer) RollbackHook() {
+	s.pending.Events = make([]*command.CDCEvent, 0)
+}
